@@ -721,3 +721,31 @@ def names2(fr):
 
 def is_call(fr, *names):
     return bool(names2(fr) & set(names))
+
+
+def channel_pairing(body, adt_suffix, sender_field, receiver_field):
+    """In a constructor: the ADT aggregate's sender and receiver fields originate from the SAME channel-creating call
+    (tuple fields .0 / .1 of one `unbounded()` / `bounded()`); returns (ok, detail)"""
+    aggs = [st["rv"]["agg"] for b, i, st in body.iter_stmts() if st["k"] == "assign" and "agg" in st["rv"]
+            and st["rv"]["agg"].get("adt", "").endswith("::" + adt_suffix)]
+    if len(aggs) != 1:
+        return False, "%d aggregates of %s" % (len(aggs), adt_suffix)
+    ag = aggs[0]
+    try:
+        so = origins(body, ag["ops"][ag["fields"].index(sender_field)])
+        ro = origins(body, ag["ops"][ag["fields"].index(receiver_field)])
+    except ValueError:
+        return False, "fields not found"
+    def chan(os_, idx):
+        out = set()
+        for o in os_:
+            if o[0] != "call" or len(o) < 3 or o[2] != "." + str(idx):
+                return None
+            fr = op_fn(body.blocks[o[1]]["term"]["func"])
+            if not fr or tail(fn_name(fr), 1) not in ("unbounded", "bounded"):
+                return None
+            out.add(o[1])
+        return out
+    cs, cr = chan(so, 0), chan(ro, 1)
+    ok = cs is not None and cs == cr and len(cs) == 1
+    return ok, "sender from %s, receiver from %s" % (sorted(map(str, so)), sorted(map(str, ro)))
